@@ -89,6 +89,7 @@ async fn scenario(ctx: &Ctx, rng: &mut Rng, epmd: &net::EpmdTable, id: usize, sc
     let call_timeout = Duration::from_millis(*rng.pick(&[120u64, 200, 300]));
     let seed = rng.next_u64();
     let late_by = call_timeout + Duration::from_millis(150);
+    let wave2 = 1 + callers.min(4);
     let shared_log: Arc<std::sync::Mutex<Vec<String>>> = Default::default();
     let sl = shared_log.clone();
     let peer_task = tokio::spawn(async move {
@@ -166,18 +167,40 @@ async fn scenario(ctx: &Ctx, rng: &mut Rng, epmd: &net::EpmdTable, id: usize, sc
                 tokio::task::yield_now().await;
             }
         }
-        if !late.is_empty() {
-            tokio::time::sleep(late_by).await;
-            for i in late {
-                let r = &reqs[i];
-                let _ = peer.write_frame4(&reply_frame(&r.reply_to, r.uid)).await;
+        // second wave: the callers of the first wave have returned (replied to, or timed out) and new calls are
+        // outstanding when the stragglers of the first wave arrive: replies later than their caller's timeout and
+        // repeated replies to calls that completed long ago. Only then is the second wave answered.
+        let mut reqs2: Vec<Request> = Vec::new();
+        let deadline2 = Instant::now() + late_by + Duration::from_millis(1500);
+        while reqs2.len() < wave2 {
+            let left = deadline2.saturating_duration_since(Instant::now());
+            if left.is_zero() {
+                break;
+            }
+            match tokio::time::timeout(left, peer.read_frame4()).await {
+                Ok(Ok(f)) => {
+                    if let Some(r) = parse_request(&f) {
+                        if r.uid >= 0 && r.uid % 1000 >= 500 {
+                            reqs2.push(r);
+                        }
+                    }
+                }
+                Ok(Err(_)) => break,
+                Err(_) => break,
             }
         }
-        // duplicates of already completed calls, once more at the very end
-        if matches!(script, Script::Duplicated | Script::Mixed) {
-            for r in reqs.iter().take(3) {
-                let _ = peer.write_frame4(&reply_frame(&r.reply_to, r.uid)).await;
-            }
+        log.push(format!("second-wave requests seen: {}", reqs2.len()));
+        for i in late {
+            let r = &reqs[i];
+            let _ = peer.write_frame4(&reply_frame(&r.reply_to, r.uid)).await;
+        }
+        // repeated replies to completed (or timed-out) calls of the first wave
+        for r in reqs.iter().take(4) {
+            let _ = peer.write_frame4(&reply_frame(&r.reply_to, r.uid)).await;
+        }
+        tokio::task::yield_now().await;
+        for r in &reqs2 {
+            let _ = peer.write_frame4(&reply_frame(&r.reply_to, r.uid)).await;
         }
         log.push("script finished".into());
         tokio::time::sleep(Duration::from_millis(2000)).await;
@@ -212,7 +235,7 @@ async fn scenario(ctx: &Ctx, rng: &mut Rng, epmd: &net::EpmdTable, id: usize, sc
     for c in 0..callers {
         let node = node.clone();
         let peer_node = peer_node.clone();
-        let uid = (id as i128) * 1000 + c as i128;
+        let uid = (id as i128 % 1_000_000) * 1000 + c as i128;
         handles.push(tokio::spawn(async move {
             let t0 = Instant::now();
             let r = node.rpc_call_raw_with_timeout(&peer_node, "m", "f", vec![OwnedTerm::Integer(uid as i64)], call_timeout).await;
@@ -294,10 +317,39 @@ async fn scenario(ctx: &Ctx, rng: &mut Rng, epmd: &net::EpmdTable, id: usize, sc
         Ok(Ok(())) => ctx.viol("C17:call-to-unconnected-node-succeeded", "a call to a node without connection returned a reply", wit(json!({}))),
         Err(e) => ctx.viol("C17:caller-panicked", "panic", wit(json!({"panic": e.to_string()}))),
     }
-    // quiescence: give the receiver a moment for stragglers (late and duplicate replies), then
-    // nothing may remain
-    let settle = if matches!(script, Script::SomeLate | Script::Mixed) { call_timeout + Duration::from_millis(250) } else { Duration::from_millis(40) };
-    tokio::time::sleep(settle).await;
+    // second wave of calls: outstanding while the peer delivers the stragglers of the first wave
+    {
+        let mut hs = Vec::new();
+        for c in 0..wave2 {
+            let node = node.clone();
+            let peer_node = peer_node.clone();
+            let uid = (id as i128 % 1_000_000) * 1000 + 500 + c as i128;
+            hs.push(tokio::spawn(async move {
+                let r = node.rpc_call_raw_with_timeout(&peer_node, "m", "f", vec![OwnedTerm::Integer(uid as i64)], Duration::from_millis(700)).await;
+                (uid, r.map(|t| val_of(&t)).map_err(|e| e.to_string()))
+            }));
+        }
+        for h in hs {
+            ctx.eval(1);
+            match tokio::time::timeout(watchdog, h).await {
+                Ok(Ok((uid, Ok(v)))) => {
+                    let want = Val::Tuple(vec![Val::atom("rex"), Val::Tuple(vec![Val::atom("reply_for"), Val::int(uid)])]);
+                    if !v.same(&want) {
+                        ctx.viol("C17:wrong-reply:straggler-of-an-earlier-call", "a call returned a reply that was addressed to an earlier call (late or repeated reply)", wit(json!({"caller_uid": uid.to_string(), "got": v.show()})));
+                    } else {
+                        ctx.count("second_wave_calls_answered", 1);
+                    }
+                }
+                Ok(Ok((_, Err(_)))) => ctx.count("second_wave_calls_failed", 1),
+                Ok(Err(e)) => ctx.viol("C17:caller-panicked", "a calling task panicked", wit(json!({"panic": e.to_string()}))),
+                Err(_) => {
+                    ctx.viol(&format!("C17:stall:{:?}", script), "a second-wave caller did not return within the watchdog", wit(json!({})));
+                }
+            }
+        }
+    }
+    // quiescence: give the receiver a moment for stragglers, then nothing may remain
+    tokio::time::sleep(Duration::from_millis(60)).await;
     let left = node.pending_rpc_count();
     if left != 0 {
         ctx.viol(
@@ -333,7 +385,7 @@ async fn scenario(ctx: &Ctx, rng: &mut Rng, epmd: &net::EpmdTable, id: usize, sc
 }
 
 pub fn run(ctx: &Ctx) {
-    ctx.rule("scenarios = 1..64 concurrent callers through one Node against a scripted rex peer x reply scripts (in order, reversed, shuffled, duplicated, some missing, some later than the caller's timeout, replies to unknown addressees, peer closes mid-run, mixed) + a call to an unconnected node + a call whose request cannot be sent, on a current-thread runtime with seeded yields at the insert/send/remove and lookup/remove hooks and on a multi-thread runtime; oracle: every Ok result carries the caller's own id, every call ends, the outstanding-call table is empty at quiescence; evaluations = calls judged; distinct = distinct (script, caller count, runtime) combinations");
+    ctx.rule("scenarios = 1..64 concurrent callers through one Node against a scripted rex peer x reply scripts (in order, reversed, shuffled, duplicated, some missing, some later than the caller's timeout, replies to unknown addressees, peer closes mid-run, mixed) + a second wave of calls that is outstanding while the peer delivers the first wave's late replies and repeats replies to completed calls + a call to an unconnected node + a call whose request cannot be sent, on a current-thread runtime with seeded yields at the insert/send/remove and lookup/remove hooks and on a multi-thread runtime; oracle: every Ok result carries the caller's own id, every call ends, the outstanding-call table is empty at quiescence; evaluations = calls judged; distinct = distinct (script, caller count, runtime) combinations");
     ctx.assume("call timeouts 120..300 ms real time; a call returning later than timeout + 1.5 s is inconclusive, only the 20 s watchdog is a violation");
     let mut rng = Rng::derive(ctx.seed, 17, 1);
     let n = ctx.pick(36usize, 3000usize);
